@@ -209,27 +209,29 @@ IfParams == { <<"if", b1, b2, b3, el>> : b1 \in {0, 1}, b2 \in {0, 1}, b3 \in {0
 IfBuild(p) == Prog(<<Log(IfN(<<LogC(1, p[2]), LogC(2, p[3]), LogC(3, p[4])>>,
                              <<Log(I(11)), Log(I(12)), Log(I(13))>>,
                              IF p[5] = 1 THEN <<Log(I(14))>> ELSE << >>))>>)
-\* <<"cp", form, kind, it, c>>: a comprehension (form 1) and its explicit loop (form 2)
+\* <<"cp", form, kind, it, c, v>>: a comprehension (form 1) and its explicit loop (form 2)
 CKinds == << "list", "set" >>
-CConds == << None, Bin(">", Var("x"), I(1)) >>
-ComprVal == Bin("*", Var("x"), I(2))
-CpParams == { p \in { <<"cp", form, kind, it, c>> : form \in {1, 2}, kind \in Idx(CKinds), it \in 1..6, c \in Idx(CConds) }
-              : ~(p[4] = 5 /\ p[5] = 2) }
+CConds == << None, Bin(">", Var("x"), I(1)), Bin("!=", Var("x"), I(2)) >>
+\* values: plain; failing exactly on the element the third condition rejects (6 / (x - 2)); with a visible effect
+ComprVals == << Bin("*", Var("x"), I(2)), Bin("/", I(6), Bin("-", Var("x"), I(2))), Log(Var("x")) >>
+CpParams == { p \in { <<"cp", form, kind, it, c, v>> : form \in {1, 2}, kind \in Idx(CKinds), it \in 1..6, c \in Idx(CConds),
+                                                      v \in Idx(ComprVals) }
+              : ~(p[4] = 5 /\ (p[5] # 1 \/ p[6] # 1)) }
 CpBuild(p) ==
   LET kind == CKinds[p[3]]  it == Iterables[p[4]]  c == CConds[p[5]]
-      val == IF it[1] = "entries" THEN Var("x") ELSE ComprVal IN
+      val == IF it[1] = "entries" THEN Var("x") ELSE ComprVals[p[6]] IN
   IF p[2] = 1 THEN Prog(<<Log(Compr(kind, val, "x", it[1], it[2], c))>>)
   ELSE Prog(<<Def("r", ListN(<< >>)),
               For(<<"x">>, it[1], it[2],
                   IF c.n = "none" THEN Asg("r", Bin("+", Var("r"), ListN(<<val>>)))
                   ELSE If1(c, Asg("r", Bin("+", Var("r"), ListN(<<val>>))))),
               Log(IF kind = "set" THEN Compr("set", Var("x"), "x", "values", Var("r"), None) ELSE Var("r"))>>)
-\* <<"mc", c>>: map comprehension
-McParams == { <<"mc", c>> : c \in Idx(CConds) }
-McBuild(p) == Prog(<<Log(Compr("map", N("kv", "", Null, <<Var("x"), Bin("*", Var("x"), I(3))>>), "x", "values",
-                               SetN(<<I(2), I(1)>>), CConds[p[2]]))>>)
+\* <<"mc", c, v>>: map comprehension
+McParams == { <<"mc", c, v>> : c \in Idx(CConds), v \in Idx(ComprVals) }
+McBuild(p) == Prog(<<Log(Compr("map", N("kv", "", Null, <<Var("x"), ComprVals[p[3]]>>), "x", "values",
+                               SetN(<<I(2), I(1), I(3)>>), CConds[p[2]]))>>)
 
-\* <<"c2", form, kind, l1, l2, c>>: product and `also for` comprehensions
+\* <<"c2", form, kind, l1, l2, c, v>>: product and `also for` comprehensions
 C2Forms == << "product", "parallel" >>
 \* sources as <<what, collection>>: lists, a set, the empty list, a string, and maps by keys / values / entries / default
 M2a == MapN(<< <<I(2), I(20)>>, <<I(1), I(30)>> >>)
@@ -238,8 +240,11 @@ C2Lists == << <<"", ListN(<<I(1), I(2)>>)>>, <<"", ListN(<<I(10), I(20), I(30)>>
               <<"", ListN(<< >>)>>, <<"", Lit(StrV(<<97, 98>>))>>,
               <<"keys", M2a>>, <<"values", M2a>>, <<"values", M2b>>, <<"entries", M2b>>, <<"", M2a>> >>
 C2Conds == << None, Bin("!=", Var("x"), Var("y")) >>
-C2Params == { <<"c2", f, k, l1, l2, c>> : f \in Idx(C2Forms), k \in Idx(CKinds), l1 \in Idx(C2Lists), l2 \in Idx(C2Lists), c \in Idx(C2Conds) }
-C2Build(p) == Prog(<<Log(Compr2(C2Forms[p[2]], CKinds[p[3]], ListN(<<Var("x"), Var("y")>>),
+\* values of the two-source forms: the pair; a value failing exactly where the condition rejects (x = y)
+C2Vals == << ListN(<<Var("x"), Var("y")>>), Bin("/", I(6), Bin("-", Var("x"), Var("y"))) >>
+C2Params == { <<"c2", f, k, l1, l2, c, 1>> : f \in Idx(C2Forms), k \in Idx(CKinds), l1 \in Idx(C2Lists), l2 \in Idx(C2Lists), c \in Idx(C2Conds) }
+            \cup { <<"c2", f, k, l1, l2, c, 2>> : f \in Idx(C2Forms), k \in Idx(CKinds), l1 \in 1..3, l2 \in 1..3, c \in Idx(C2Conds) }
+C2Build(p) == Prog(<<Log(Compr2(C2Forms[p[2]], CKinds[p[3]], C2Vals[p[7]],
                                 "x", C2Lists[p[4]][1], C2Lists[p[4]][2], "y", C2Lists[p[5]][1], C2Lists[p[5]][2], C2Conds[p[6]]))>>)
 \* <<"l4", where, ex, fin>>: exits through do/finally inside nested loops and
 \* from a loop in a function called inside a loop
